@@ -31,7 +31,32 @@ ASSUMPTIONS = ["numpy Generator(seed).random() stream is read in Python and pass
                "float products of integer kappas are exact; for non-integer kappas only tie-break-independent observables are compared"]
 
 
+def _deep_merge_and_barrier_cases():
+    """(a) eight to ten qubits merged hierarchically (pairs, pairs of pairs, ...) so that the search state's up-tree gets three or more levels
+    before a further gate touches a deep wire — wide limits (nothing to cut) and limits that force cuts; (b) a full-width barrier at or after
+    the gate whose input wire is cut (wire-cut plans), next to controls with the barrier in front of the cut or a gate-cut plan"""
+    g, f = cutfind._g, cutfind._fam
+    tree8 = [g("cx", 0, 1), g("cx", 2, 3), g("cx", 4, 5), g("cx", 6, 7), g("cx", 4, 6), g("cx", 0, 2), g("cx", 0, 4), g("cx", 7, 3), g("h", 7)]
+    out = [f(8, tree8, 8), f(8, tree8, 10, seed=3), f(8, tree8, 6, seed=1), f(8, tree8, 4, seed=2, glo=False), f(8, tree8, 4, seed=2, wlo=False)]
+    tree10 = [g("cx", 8, 9), g("cx", 0, 1), g("cx", 2, 3), g("cx", 0, 2), g("cx", 4, 5), g("cx", 6, 7), g("cx", 4, 6), g("cx", 0, 4),
+              g("cx", 7, 8), g("cz", 9, 3), g("cx", 5, 1)]
+    out += [f(10, tree10, 10), f(10, tree10, 8, seed=5), f(10, tree10, 5, seed=6, mb=200)]
+    rev = [g("cx", 7, 6), g("cx", 5, 4), g("cx", 3, 2), g("cx", 1, 0), g("cx", 3, 1), g("cx", 7, 5), g("cx", 7, 3), g("cx", 0, 4), g("x", 0)]
+    out += [f(8, rev, 8, seed=7), f(8, rev, 9, seed=8, glo=False)]
+    bar = lambda n: g("barrier", *range(n))
+    star = [g("cx", 0, 3), g("cx", 1, 3), g("cx", 2, 3)]
+    out += [f(5, star + [bar(5), g("h", 4), g("cx", 3, 4)], 3, seed=1), f(5, star + [bar(5), g("h", 4), g("cx", 3, 4)], 3, seed=1, glo=False),
+            f(5, star + [g("h", 4), g("cx", 3, 4), bar(5), g("x", 0)], 3, seed=2, glo=False),
+            f(5, [bar(5)] + star + [g("h", 4), g("cx", 3, 4)], 3, seed=3, glo=False),           # control: barrier in front of everything
+            f(5, star + [bar(5), g("h", 4), g("cx", 3, 4)], 3, seed=4, wlo=False),              # control: gate-cut plan
+            f(4, [g("swap", 0, 1), g("cx", 1, 2), bar(4), g("swap", 2, 3), bar(4), g("cx", 0, 3)], 2, seed=5),
+            f(4, [g("cx", 0, 1), g("cx", 2, 3), bar(4), g("cx", 1, 2), g("cx", 0, 1), bar(4), g("cx", 2, 3)], 2, seed=6, glo=False)]
+    return out
+
+
 def cases(rng, tier):
+    for p in _deep_merge_and_barrier_cases():
+        yield ("find_cuts", p)
     N = 150 if tier == "quick" else 2500
     # deterministic families (independent of the seed, oracle always run): Delay instructions before / in front of / after the cut positions
     # (reported positions are positions in the input circuit, delays included), and qubits spread over several quantum registers
